@@ -6,7 +6,7 @@ Direct judgement: the command that Rust's validated tree / emitted script contai
 reference to <X> must be what Spec.Choice.spec (extracted) says."""
 import itertools
 
-from .. import build, gen, impl, model, report, sexp
+from .. import bashrun, build, gen, impl, model, report, sexp
 from ..sexp import Q
 
 SHELLS = ['bash', 'fish', 'zsh', 'pwsh']
@@ -23,6 +23,8 @@ MANIFEST = dict(
     design='6 C11',
     technique='Coq theorem (model = spec) + extracted-model/implementation correspondence (exhaustive family) + T3 regenerated constants')
 KINDS = ['plain', 'bash', 'fish', 'zsh', 'pwsh']
+# names of intermediate definitions (hash-map iteration order over definitions depends on the names)
+POOL = ['Y', 'Z', 'FILE', 'OUTPUT', 'LOG', 'OPT', 'ROOT', 'THING', 'OPTION', 'ARG', 'NAME', 'VALUE', 'A', 'B']
 
 
 def grammars(ctx):
@@ -34,22 +36,47 @@ def grammars(ctx):
             for i, k in enumerate(KINDS):
                 if mask >> i & 1:
                     defs.append(('def', name, None if k == 'plain' else k, ('cmd', 'echo %s_%s' % (name.lower(), k))))
-            for pos in ('top', 'word', 'def1', 'def2', 'opt'):
+            for pos in ('top', 'word', 'def1', 'def2', 'opt', 'twice', 'topword', 'topdef'):
                 ref = ('nt', name)
                 if pos == 'top':
                     stmts = [('call', 'cmd', ('seq', [('lit', 'a', None), ref]))]
                 elif pos == 'word':
                     stmts = [('call', 'cmd', ('seq', [('lit', 'a', None), ('sub', [('lit', '--k=', None), ref])]))]
                 elif pos == 'def1':
-                    stmts = [('call', 'cmd', ('nt', 'Y')), ('def', 'Y', None, ('seq', [('lit', 'a', None), ref]))]
+                    y = ctx['rng'].choice(POOL)
+                    stmts = [('call', 'cmd', ('nt', y)), ('def', y, None, ('seq', [('lit', 'a', None), ref]))]
                 elif pos == 'def2':
-                    stmts = [('call', 'cmd', ('nt', 'Y')), ('def', 'Y', None, ('alt', [('lit', 'a', None), ('nt', 'Z')])),
-                             ('def', 'Z', None, ('seq', [('lit', 'b', None), ('opt', ref)]))]
+                    y, z = ctx['rng'].sample(POOL, 2)
+                    stmts = [('call', 'cmd', ('nt', y)), ('def', y, None, ('alt', [('lit', 'a', None), ('nt', z)])),
+                             ('def', z, None, ('seq', [('lit', 'b', None), ('opt', ref)]))]
+                elif pos == 'twice':      # the same name referenced twice
+                    stmts = [('call', 'cmd', ('seq', [('lit', 'a', None), ref, ('lit', 'b', None), ref]))]
+                elif pos == 'topword':    # at top level and inside a word
+                    stmts = [('call', 'cmd', ('seq', [('lit', 'a', None), ref, ('sub', [('lit', '--k=', None), ref])]))]
+                elif pos == 'topdef':     # directly and through a definition
+                    y = ctx['rng'].choice(POOL)
+                    stmts = [('call', 'cmd', ('seq', [('lit', 'a', None), ref, ('nt', y)])),
+                             ('def', y, None, ('seq', [('lit', 'c', None), ref]))]
                 else:
                     stmts = [('call', 'cmd', ('fb', [('lit', 'a', None), ('many', ref)]))]
                 order = ctx['rng'].random() < 0.5
                 g = stmts + defs if order else defs + stmts
                 out.append((name, mask, pos, gen.show_grammar(g).encode()))
+    # several names at once: one at top level, two inside words (command ids differ between the main
+    # automaton and the within-word automata)
+    r0 = ctx['rng']
+    for _ in range(40 if ctx['tier'] == 'quick' else 600):
+        names = r0.sample(['PATH', 'DIRECTORY', 'FOO', 'BAR', 'BAZ'], 3)
+        defs = []
+        for n in names:
+            ks = [k for k in KINDS if r0.random() < 0.5]
+            for k in ks:
+                defs.append(('def', n, None if k == 'plain' else k, ('cmd', 'echo %s_%s' % (n.lower(), k))))
+        body = ('seq', [('nt', names[0]), ('alt', [('sub', [('lit', '--opt=', None), ('nt', names[1])]),
+                                                    ('sub', [('lit', '--other=', None), ('nt', names[2])])])])
+        g = [('call', 'cmd', body)] + defs
+        r0.shuffle(g)
+        out.append((','.join(names), -2, 'multi', gen.show_grammar(g).encode()))
     if ctx['tier'] == 'thorough':
         # random mixtures: several names, non-command plain definitions, descriptions around
         r = ctx['rng']
@@ -121,7 +148,7 @@ def run(ctx, res):
     for key, o in zip(index, outs):
         by[key] = o
     res.rule = ('exhaustive: every subset of {plain,@bash,@fish,@zsh,@pwsh} command definitions x names {PATH,DIRECTORY,FOO} '
-                'x 5 reference positions (top level, inside a word, through one/two definitions, under ||/...) x 4 shells; '
+                'x 8 reference positions (top level, inside a word, through one/two definitions, under ||/..., twice, top+word, direct+through a definition) x 4 shells; '
                 'non-trivial = at least one definition of the name present; thorough adds random mixtures of several names')
     res.exhaustive = True
     nontrivial = set()
@@ -184,5 +211,67 @@ def run(ctx, res):
             if len(res.samples) < 4 and mask in (5, 9, 18):
                 res.samples.append(dict(grammar=text.decode(), shell=sh, impl_check=st.get('CHECK', '')[:300],
                                         spec_choice=by.get((i, sh, 'choice:' + name.split(',')[0]))))
+    # --- what the emitted bash script really runs (execution in real bash on a sample)
+    executed = run_in_bash(ctx, res, cases, by)
     res.nontrivial = len(nontrivial)
-    res.extra['stage'] = 'check (ValidGrammar::from_grammar) + command table of the emitters'
+    res.extra['stage'] = 'check (ValidGrammar::from_grammar) + command table of the emitters + bash execution'
+    res.extra['bash_executions'] = executed
+
+
+def expected_reply(choice):
+    """COMPREPLY expected when completing exactly at the reference, or None when it cannot be predicted."""
+    if choice[0] == 'cmd':
+        c = str(choice[1])
+        return [c[5:]] if c.startswith('echo ') else None     # built-ins list files: not predicted
+    if choice[0] == 'plain':
+        cs = commands_in(choice[1], [])
+        return [cs[0][5:]] if len(cs) == 1 and cs[0].startswith('echo ') else None
+    return []                                                  # any word: nothing is offered
+
+
+def run_in_bash(ctx, res, cases, by):
+    with build.Lock():
+        binary = build.complgen()
+    r = ctx['rng']
+    idx = [i for i, c in enumerate(cases) if c[2] in ('top', 'word', 'multi')]
+    r.shuffle(idx)
+    idx = idx[: (60 if ctx['tier'] == 'quick' else 1200)]
+    outs = impl.run_binary_many(binary, [dict(text=cases[i][3], shell='bash') for i in idx])
+    jobs, meta = [], []
+    for i, o in zip(idx, outs):
+        if o['rc'] != 0:
+            continue
+        name, mask, pos, text = cases[i]
+        names = name.split(',')
+        if pos == 'top':
+            qs = [(['a'], '', names[0])]
+        elif pos == 'word':
+            qs = [(['a'], '--k=', names[0])]
+        else:
+            qs = [([], '', names[0]), (['zz'], '--opt=', names[1]), (['zz'], '--other=', names[2])]
+        jobs.append((o['stdout'].decode('latin-1'), [(q[0], q[1]) for q in qs]))
+        meta.append((i, qs))
+    results = bashrun.run_many(jobs)
+    n = 0
+    for (i, qs), (rs, err) in zip(meta, results):
+        name, mask, pos, text = cases[i]
+        for (ws, pfx, nm), got in zip(qs, rs):
+            ch = sexp.parse(by[(i, 'bash', 'choice:' + nm)])
+            want = expected_reply(ch)
+            if want is None:
+                continue
+            if pos == 'multi' and ws == ['zz']:
+                # the first word is matched by <names[0]>: only predictable when that is "any word" or
+                # a command that prints exactly zz -- use the any-word case only
+                ch0 = sexp.parse(by[(i, 'bash', 'choice:' + name.split(',')[0])])
+                if ch0[0] != 'any':
+                    continue
+            n += 1
+            res.evaluations += 1
+            reply = sorted(x.strip() for x in got['reply']) if got else None
+            if got is None or reply != sorted(want):
+                res.violations.append(report.Violation(
+                    'C11: completing at <%s> in real bash offers %s, the chosen definition prints %s' % (nm, reply, want),
+                    dict(kind='spec-judgement', grammar=text.decode(), shell='bash', words=ws, prefix=pfx, reference=nm,
+                         spec_choice=sexp.dump(ch), compreply=reply, expected=want)))
+    return n
